@@ -119,3 +119,87 @@ def gen_blacklist(g):
     bf = consts.get("BUILTIN_FUNCTIONS")
     okb = bf is not None and ("dir(builtins)" in ast.unparse(bf) or all(repr(b) in ast.unparse(bf) for b in ("list", "dict", "print", "len", "id", "type", "max", "min", "sum")))
     g.oblige("table", "BUILTIN_FUNCTIONS-covers-the-common-builtins", [], z3.BoolVal(bool(okb)), 1)
+
+
+# ----------------------------------------------------------------------------- refusal guards of the renaming rules, on representatives
+# (label, rule, module source, text that must still be in the output).  One representative per way a name can mean something else: the
+# rule is the real function, run on the module; the obligation is that the binding is LEFT ALONE (the text that carries it survives).
+F1 = "def {a}(x):\n    return x + 1\n\n\ndef {b}(x):\n    return x + 1\n\n\n"
+REFUSALS = [
+    ("duplicate-merge:kept-name-is-a-parameter", "fixes.remove_duplicate_functions", F1.format(a="f", b="g") + "def use(f):\n    return g(f)\n", "def g(x)"),
+    ("duplicate-merge:removed-name-is-a-parameter", "fixes.remove_duplicate_functions", F1.format(a="f", b="g") + "def use(g):\n    return f(g)\n", "def g(x)"),
+    ("duplicate-merge:kept-name-is-a-local", "fixes.remove_duplicate_functions", F1.format(a="f", b="g") + "def use(x):\n    f = x * 2\n    return g(f)\n", "def g(x)"),
+    ("duplicate-merge:kept-name-is-defined-again", "fixes.remove_duplicate_functions", F1.format(a="f", b="g") + "def f(x):\n    return x * 10\n\n\nprint(g(2))\n", "def g(x)"),
+    ("duplicate-merge:kept-name-is-an-exception-name", "fixes.remove_duplicate_functions", F1.format(a="f", b="g") + "try:\n    pass\nexcept ValueError as f:\n    print(g(1))\n", "def g(x)"),
+    ("duplicate-merge:kept-name-is-imported", "fixes.remove_duplicate_functions", F1.format(a="f", b="g") + "def use(x):\n    from os import sep as f\n    return g(x), f\n", "def g(x)"),
+    ("duplicate-merge:kept-name-is-declared-global", "fixes.remove_duplicate_functions", F1.format(a="f", b="g") + "def use(x):\n    global f\n    return g(x)\n", "def g(x)"),
+    ("duplicate-merge:bodies-call-different-functions", "fixes.remove_duplicate_functions",
+     "def foo(x):\n    return x + 1\n\n\ndef bar(x):\n    return x * 10\n\n\ndef f(x):\n    return foo(x)\n\n\ndef g(x):\n    return bar(x)\n", "def g(x)"),
+    ("duplicate-merge:bodies-read-different-globals", "fixes.remove_duplicate_functions", "A = 3\nB = 5\n\n\ndef f(x):\n    return x * A\n\n\ndef g(x):\n    return x * B\n", "def g(x)"),
+    ("duplicate-merge:bodies-assign-different-globals", "fixes.remove_duplicate_functions",
+     "a = b = 0\n\n\ndef f():\n    global a\n    a = 1\n\n\ndef g():\n    global b\n    b = 1\n", "def g()"),
+    ("duplicate-merge:bodies-use-different-attributes", "fixes.remove_duplicate_functions", "import math\n\n\ndef f(x):\n    return math.floor(x)\n\n\ndef g(x):\n    return math.ceil(x)\n", "def g(x)"),
+    ("duplicate-merge:bodies-differ-in-a-constant", "fixes.remove_duplicate_functions", "def f(x):\n    return x + 1\n\n\ndef g(x):\n    return x + 2\n", "def g(x)"),
+    ("unused-underscore:name-is-deleted", "fixes.undefine_unused_variables", "def f():\n    tmp = make()\n    del tmp\n    return 2\n", "tmp = make()"),
+    ("unused-underscore:name-is-deleted-at-module-level", "fixes.undefine_unused_variables", "import sys\ntmp = len(sys.argv)\ndel tmp\n", "tmp = len(sys.argv)"),
+    ("unused-underscore:name-is-read-in-a-handler", "fixes.undefine_unused_variables", "def f(x):\n    try:\n        v = 1\n        x()\n    except ValueError:\n        return v\n    return 0\n", "v = 1"),
+    ("convention:function-is-defined-again-in-a-block", "fixes.align_variable_names_with_convention",
+     "import sys\n\n\ndef fooBar(x):\n    return 1\n\n\nif sys.argv:\n    def fooBar(x):\n        return 2\n\n\nprint(fooBar(3))\n", "print(fooBar(3))"),
+    ("convention:class-body-name-refers-to-a-kept-method", "fixes.align_variable_names_with_convention",
+     "class Base:\n    pass\n\n\nclass A(Base):\n    def fooBar(self):\n        return 1\n\n    alias = fooBar\n", "alias = fooBar"),
+    ("convention:member-is-a-match-class-keyword", "fixes.align_variable_names_with_convention",
+     "class P:\n    xPos = 0\n\n\ndef f(p):\n    match p:\n        case P(xPos=0):\n            return 1\n    return 0\n", "xPos = 0"),
+    ("convention:name-shadows-a-builtin-used-earlier", "fixes.align_variable_names_with_convention", "import sys\nn = len(sys.argv)\nlen = 1\nprint(len, n)\n", "len = 1"),
+    ("convention:name-is-a-parameter-elsewhere", "fixes.align_variable_names_with_convention", "someVar = 1\n\n\ndef f(someVar):\n    return someVar\n\n\nprint(f(2), someVar)\n", "someVar = 1"),
+    ("convention:name-is-declared-global", "fixes.align_variable_names_with_convention", "someVar = 0\n\n\ndef bump():\n    global someVar\n    someVar += 1\n\n\nbump()\nprint(someVar)\n", "someVar = 0"),
+    ("convention:new-name-is-taken", "fixes.align_variable_names_with_convention", "someVar = 1\nSOME_VAR = 2\nprint(someVar, SOME_VAR)\n", "someVar = 1"),
+    ("static-move:new-name-is-a-variable", "object_oriented.move_staticmethod_static_scope",
+     "_K_helper = 1\n_helper = 5\n\n\nclass K:\n    @staticmethod\n    def helper(x):\n        return x + _helper\n\n\nprint(K.helper(1), _K_helper)\n", "def helper(x)"),
+    ("static-move:class-body-refers-to-the-method-by-name", "object_oriented.move_staticmethod_static_scope",
+     "class K:\n    @staticmethod\n    def helper(x):\n        return x\n\n    alias = helper\n\n\nprint(K.alias(1))\n", "def helper(x)"),
+    ("static-move:reached-through-an-instance-attribute", "object_oriented.move_staticmethod_static_scope",
+     "class K:\n    @staticmethod\n    def helper(x):\n        return x\n\n\ndef f(k):\n    return k.helper(1)\n\n\nprint(f(K()))\n", "def helper(x)"),
+]
+# the rule does act where nothing is ambiguous (vacuity guard): (label, rule, source, text that must be GONE)
+REFUSAL_CONTROLS = [
+    ("duplicate-merge", "fixes.remove_duplicate_functions", F1.format(a="f", b="g") + "print(f(1), g(2))\n", "def g(x)"),
+    ("unused-underscore", "fixes.undefine_unused_variables", "def f():\n    tmp = make()\n    return 2\n", "tmp = make()"),
+    ("convention", "fixes.align_variable_names_with_convention", "someVar = 1\nprint(someVar)\n", "someVar = 1"),
+    ("static-move", "object_oriented.move_staticmethod_static_scope", "class K:\n    @staticmethod\n    def helper(x):\n        return x\n\n\nprint(K.helper(1))\n", "    def helper(x)"),
+]
+
+
+def gen_refusals(g):
+    """table obligations: each renaming rule (the real function) leaves a binding alone when its name, or the name it would get, means
+    something else somewhere; one representative module per reason.  A rule that raises makes the obligation not-generated."""
+    from pyvc.replay import call_real
+    fn, text = find_def("fixes", "remove_duplicate_functions")
+    g.sha = segment_sha(text, fn)
+    g.lines = [fn.lineno, fn.end_lineno]
+    snippet = (
+        "import importlib\n"
+        "from pyrefact import logs\n"
+        "logs.set_level(100)\n"
+        "out = {}\n"
+        "for lab, rule, src in payload['cases']:\n"
+        "    mod, name = rule.split('.')\n"
+        "    f = getattr(importlib.import_module('pyrefact.' + mod), name)\n"
+        "    try:\n"
+        "        out[lab] = f(src, set()) if name != 'undefine_unused_variables' else f(src, set())\n"
+        "    except Exception as ex:\n"
+        "        out[lab] = None\n"
+        "print(json.dumps(out))\n")
+    cases = [(lab, rule, src) for lab, rule, src, _ in REFUSALS] + [("control:" + lab, rule, src) for lab, rule, src, _ in REFUSAL_CONTROLS]
+    res = call_real(snippet, {"cases": cases}, timeout=300)
+    for lab, rule, src, keep in REFUSALS:
+        out = res.get(lab)
+        if not isinstance(out, str):
+            raise NotGenerated(f"{rule} raised on representative {lab}")
+        g.oblige("table", f"binding-left-alone:{lab}", [], z3.BoolVal(keep in out), fn.lineno,
+                 replay=lambda m, rule=rule, src=src, out=out, keep=keep: {"reproduced": True, "input": f"{rule}({src!r}, set())", "observed": out, "required": f"the output still contains {keep!r}"})
+    for lab, rule, src, gone in REFUSAL_CONTROLS:
+        out = res.get("control:" + lab)
+        if not isinstance(out, str):
+            raise NotGenerated(f"{rule} raised on control {lab}")
+        g.oblige("cover", f"control-rule-acts:{lab}", [z3.BoolVal(gone not in out)], z3.BoolVal(True), fn.lineno)
+    g.assumptions.add("one representative module per reason a name can mean something else; the bounded stand-in c19-programs-executed varies identifiers and binding forms")
